@@ -22,26 +22,26 @@ where
     P: IterParser<'s, I, Val, Ex<R>> + Parser<'s, I, (), Ex<R>> + Clone + 's,
 {
     match sink {
-        Sink::Vec => rep.collect::<Vec<Val>>().map(Val::List).cb(),
+        Sink::Vec => rep.collect::<Vec<Val>>().mb(Val::List),
         Sink::Str => unreachable!(),
-        Sink::Count if this.explicit => rep.collect::<Vec<Val>>().map(|v| Val::Num(v.len() as u64)).cb(),
-        Sink::Unit | Sink::Bare if this.explicit => rep.collect::<Vec<Val>>().map(|_v| Val::Unit).cb(),
-        Sink::Count => rep.count().map(|n| Val::Num(n as u64)).cb(),
-        Sink::Unit => rep.collect::<()>().map(|()| Val::Unit).cb(),
-        Sink::Bare => rep.map(|()| Val::Unit).cb(),
+        Sink::Count if this.explicit => rep.collect::<Vec<Val>>().mb(|v| Val::Num(v.len() as u64)),
+        Sink::Unit | Sink::Bare if this.explicit => rep.collect::<Vec<Val>>().mb(|_v| Val::Unit),
+        Sink::Count => rep.count().mb(|n| Val::Num(n as u64)),
+        Sink::Unit => rep.collect::<()>().mb(|()| Val::Unit),
+        Sink::Bare => rep.mb(|()| Val::Unit),
         // the fixed-size container is an array or, depending on the bounds of the repetition, the same array behind
         // Box / Box<Box<..>> (ContainerExactly forwards through Box: its own uninit / write / drop_before / take; the Rc and Arc
         // implementations are commented out in the library)
         Sink::Exactly(n) => match (n, this.hint % 3) {
-            (0, _) => rep.collect_exactly::<[Val; 0]>().map(|a| Val::List(a.into())).cb(),
-            (1, 1) => rep.collect_exactly::<Box<[Val; 1]>>().map(|a| Val::List((*a).into())).cb(),
-            (1, _) => rep.collect_exactly::<[Val; 1]>().map(|a| Val::List(a.into())).cb(),
-            (2, 1) => rep.collect_exactly::<Box<[Val; 2]>>().map(|a| Val::List((*a).into())).cb(),
-            (2, 2) => rep.collect_exactly::<Box<Box<[Val; 2]>>>().map(|a| Val::List((**a).into())).cb(),
-            (2, _) => rep.collect_exactly::<[Val; 2]>().map(|a| Val::List(a.into())).cb(),
-            (3, 1) => rep.collect_exactly::<Box<[Val; 3]>>().map(|a| Val::List((*a).into())).cb(),
-            (3, _) => rep.collect_exactly::<[Val; 3]>().map(|a| Val::List(a.into())).cb(),
-            _ => rep.collect_exactly::<[Val; 4]>().map(|a| Val::List(a.into())).cb(),
+            (0, _) => rep.collect_exactly::<[Val; 0]>().mb(|a| Val::List(a.into())),
+            (1, 1) => rep.collect_exactly::<Box<[Val; 1]>>().mb(|a| Val::List((*a).into())),
+            (1, _) => rep.collect_exactly::<[Val; 1]>().mb(|a| Val::List(a.into())),
+            (2, 1) => rep.collect_exactly::<Box<[Val; 2]>>().mb(|a| Val::List((*a).into())),
+            (2, 2) => rep.collect_exactly::<Box<Box<[Val; 2]>>>().mb(|a| Val::List((**a).into())),
+            (2, _) => rep.collect_exactly::<[Val; 2]>().mb(|a| Val::List(a.into())),
+            (3, 1) => rep.collect_exactly::<Box<[Val; 3]>>().mb(|a| Val::List((*a).into())),
+            (3, _) => rep.collect_exactly::<[Val; 3]>().mb(|a| Val::List(a.into())),
+            _ => rep.collect_exactly::<[Val; 4]>().mb(|a| Val::List(a.into())),
         },
         Sink::Enumerate => rep
             .enumerate()
@@ -105,7 +105,7 @@ pub fn rep_node<'s, I: Kind<'s>, R: Er<'s, I>>(this: &mut Bld<'s, I, R>, r: &Rep
                 if let Some(h) = hi {
                     rep = rep.at_most(h)
                 }
-                rep.collect::<String>().map(Val::Str).cb()
+                rep.collect::<String>().mb(Val::Str)
             }
             Some(sep) => {
                 let sep = this.build(sep);
@@ -119,7 +119,7 @@ pub fn rep_node<'s, I: Kind<'s>, R: Er<'s, I>>(this: &mut Bld<'s, I, R>, r: &Rep
                 if r.trailing {
                     rep = rep.allow_trailing()
                 }
-                rep.collect::<String>().map(Val::Str).cb()
+                rep.collect::<String>().mb(Val::Str)
             }
         };
     }
@@ -215,7 +215,7 @@ pub fn iter_then_fallback<'s, I: Kind<'s>, R: Er<'s, I>>(this: &mut Bld<'s, I, R
         a.map(move |x| flat(vec![x], sink)).cb()
     } else {
         let (b2, a) = (ps.pop().unwrap(), ps.pop().unwrap());
-        a.then(b2).map(move |(x, y)| flat(vec![x, y], sink)).cb()
+        a.then(b2).mb(move |(x, y)| flat(vec![x, y], sink))
     }
 }
 
@@ -271,9 +271,9 @@ where
     P: IterParser<'s, &'s str, Val, Ex<R>> + Clone + 's,
 {
     if sink == 0 {
-        p.collect::<Vec<Val>>().map(Val::List).cb()
+        p.collect::<Vec<Val>>().mb(Val::List)
     } else {
-        p.count().map(|n| Val::Num(n as u64)).cb()
+        p.count().mb(|n| Val::Num(n as u64))
     }
 }
 
